@@ -50,8 +50,11 @@ def main():
         if rc != 0:
             rc, out = sh(["git", "-C", wt, "apply", "-3", "--whitespace=nowarn", os.path.join(d, "patch.diff")])
         if rc != 0:
-            result["confirmed"] = False
-            result["error"] = "patch does not apply: " + out[-500:]
+            # /repo has moved on since the change was written (later repairs touch the same lines)
+            result["patch_applies_to_head"] = False
+            result["error"] = "patch does not apply to the current HEAD: " + out[-300:]
+            if not a.skip_confirm:
+                result["confirmed"] = False
             return result
         if not a.skip_confirm:
             rc1, o1 = sh([PY, demo], cwd=wt, env=denv, timeout=600)
